@@ -2,3 +2,4 @@ import CmProps.C01
 import CmProps.C04
 import CmProps.C02
 import CmProps.C16
+import CmProps.C03
